@@ -1,6 +1,8 @@
 (* Extraction for the C06 correspondence driver: ExtrOcamlBasic only; N/positive/nat stay
-   extracted inductives. *)
+   extracted inductives.  compile_raw_g is compile_raw with the ghost "no stale cache hit" flag
+   (Proofs/TopDownSem.v, erased by compile_raw_g_erase); the driver runs both and reports a
+   cleared flag. *)
 From Coq Require Import Extraction ExtrOcamlBasic NArith List.
-From RsddV Require Import Base.Bdd Model.UnitProp Model.TopDown.
+From RsddV Require Import Base.Bdd Model.UnitProp Model.TopDown Proofs.TopDownSem.
 Extraction Language OCaml.
-Extraction "../ocaml/C06/model.ml" compile_raw condition den neg cnf_new cnf_num_vars.
+Extraction "../ocaml/C06/model.ml" compile_raw compile_raw_g condition den neg bdd_eqb cnf_new cnf_num_vars.
